@@ -136,6 +136,9 @@ func lineText(l noteLine) string {
 		if l.Bad {
 			return fmt.Sprintf("bad\x01line %d", l.ID)
 		}
+		if l.ID%2 == 1 {
+			return fmt.Sprintf("text line %d \u00e9 \ufffd \u4e2d", l.ID) // valid UTF-8, including an encoded U+FFFD
+		}
 		return fmt.Sprintf("text line %d", l.ID)
 	}
 	// signature line
@@ -244,7 +247,86 @@ func checkOpened(n *note.Note, calls []verifyCall) string {
 	return ""
 }
 
+// checkResign: Sign, Open with some verifiers, Sign again with other signers; the signature lines of the result
+// must be the specification's (who signed, in which order), each a good signature over the text, and the
+// message must open with the same text.
+func checkResign(c *core.Case) ([]core.Violation, bool) {
+	var in struct {
+		Text   []noteLine `json:"text"`
+		First  []int      `json:"first"`
+		Known  []int      `json:"known"`
+		Second []int      `json:"second"`
+	}
+	if err := json.Unmarshal(c.In, &in); err != nil {
+		panic(err)
+	}
+	var exp struct {
+		Keys []int `json:"keys"`
+	}
+	json.Unmarshal(c.Exp, &exp)
+	text := textOf(in.Text)
+	desc := fmt.Sprintf("text %q signed by %v, opened knowing %v, signed again by %v", text, in.First, in.Known, in.Second)
+	bad := func(sig, format string, a ...any) ([]core.Violation, bool) {
+		return []core.Violation{{Sig: sig, What: fmt.Sprintf(format, a...) + "; " + desc, Case: c}}, true
+	}
+	signers := func(ids []int) []note.Signer {
+		var out []note.Signer
+		for _, id := range ids {
+			out = append(out, keySigner{noteKeys[id]})
+		}
+		return out
+	}
+	m0, err := note.Sign(&note.Note{Text: text}, signers(in.First)...)
+	if err != nil {
+		return bad("resign:sign-error", "Sign fails on valid text: %v", err)
+	}
+	var calls []verifyCall
+	var mu sync.Mutex
+	n, err := note.Open(m0, buildVerifiers(in.Known, false, &calls, &mu))
+	if err != nil {
+		return bad("resign:open-error", "the freshly signed note does not open: %v", err)
+	}
+	if n.Text != text {
+		return bad("resign:text", "opened text %q", n.Text)
+	}
+	m1, err := note.Sign(n, signers(in.Second)...)
+	if err != nil {
+		return bad("resign:sign-error", "Sign fails on an opened note: %v", err)
+	}
+	if !bytes.HasPrefix(m1, []byte(text+"\n")) {
+		return bad("resign:text", "re-signed message %q does not start with the text and a blank line", m1)
+	}
+	var got []int
+	for _, l := range strings.Split(strings.TrimSuffix(string(m1[len(text)+1:]), "\n"), "\n") {
+		id := 0
+		rest := strings.TrimPrefix(l, "— ")
+		if i := strings.Index(rest, " "); i >= 0 && rest != l {
+			if sig, err := base64.StdEncoding.DecodeString(rest[i+1:]); err == nil && len(sig) > 4 {
+				for kid, k := range noteKeys {
+					if k.name == rest[:i] && k.hash == binary.BigEndian.Uint32(sig[:4]) && ed25519.Verify(k.pub, []byte(text), sig[4:]) {
+						id = kid
+					}
+				}
+			}
+		}
+		got = append(got, id)
+	}
+	if !core.Eq(got, exp.Keys) {
+		return bad("resign:signatures", "signature lines of the re-signed message were made by keys %v (0 = not a good signature over the text), the documented result is %v\nmessage: %q", got, exp.Keys, m1)
+	}
+	// and it opens for every verifier set that knows one of the signers, with the same text
+	all := append(append([]int{}, in.First...), in.Second...)
+	n2, err := note.Open(m1, buildVerifiers(all[len(all)-1:], false, &calls, &mu))
+	if err != nil || n2.Text != text {
+		return bad("resign:reopen", "the re-signed message does not open with its last signer's key: %v", err)
+	}
+	return nil, true
+}
+
 func (w *noteWorld) Check(c *core.Case) ([]core.Violation, bool) {
+	if c.K == "resign" {
+		return checkResign(c)
+	}
 	if c.K != "open" {
 		panic("note: unknown case kind " + c.K)
 	}
@@ -321,7 +403,7 @@ func (w *noteWorld) Check(c *core.Case) ([]core.Violation, bool) {
 // Record: byte-level mutation sweep over signed messages; each Open is logged with the message abstracted
 // to lines by an independent splitter and classifier (ground truth by crypto/ed25519).
 func (w *noteWorld) Record(rng *rand.Rand, n int, emit func(k string, in, obs any)) {
-	texts := []string{"hello\n", "two\nlines\n", "with\n\nblank\n", "\n", "ends with blank\n\n", "— A AAAAAAAA\n", "a\n\n— B bm90IGEgc2ln\n", "unicode é\n"}
+	texts := []string{"hello\n", "two\nlines\n", "with\n\nblank\n", "\n", "ends with blank\n\n", "— A AAAAAAAA\n", "a\n\n— B bm90IGEgc2ln\n", "unicode é\n", "replacement \ufffd char\n"}
 	for emitted := 0; emitted < n; {
 		text := texts[rng.Intn(len(texts))]
 		var signers []note.Signer
